@@ -31,6 +31,10 @@ func runC01(c *Ctx) {
 	// stale entries are deleted unless they lie below an already removed
 	// directory: the suppression prefix must be separator-terminated (shared with C05)
 	r05_4(c, "R01.10")
+	// an entry whose stat differs from the destination's is re-created: the
+	// comparison that decides "unchanged" covers every transferred attribute,
+	// for every entry type (shared with C02)
+	r02_1(c, "R01.12")
 }
 
 // statSources: required provenance of each Stat field in the constructor.
